@@ -182,6 +182,8 @@ def corpus():
     yield {"kind": "node", "ops": ["set2", "run", "set6", "run", "clearfailed", "run", "submit"]}
     yield {"kind": "wf", "ops": [["run"], ["rewire", 2, "a", 0], ["run"]], "macro": False}
     yield {"kind": "wf", "ops": [["run"], ["setinner", 1, "a", "y"], ["run"]], "macro": False}
+    # a value assigned to a CONNECTED input survives a cache hit (no fetch) and takes effect after a disconnect (KF-C05-7)
+    yield {"kind": "wf", "ops": [["run"], ["setinner", 1, "a", "x"], ["run"], ["remove", 0], ["run"]], "macro": False}
     sh = _tree_shapes()
     # a grandchild's free input changes (seeded change C05-2), at depth 2, 3 and 4
     yield {"kind": "tree", "shape": sh[0], "ops": [["run"], ["setat", ["m0"], "n1", "c", 4], ["run"]]}
@@ -444,9 +446,14 @@ def _run_wf_case(case):
     b = _build_wf(False, case.get("macro"))
     rows = []
     for op in case["ops"]:
+        note = None
+        if op[0] == "setinner":
+            c = {k.label: k for k in a}.get(f"n{op[1]}")
+            if c is not None and c.inputs[op[2]].connected:
+                note = "assignment-to-connected-input"  # overwritten by the next fetch — unless the run is a cache hit
         ra, a = _apply_wf(a, op, True)
         rb, b = _apply_wf(b, op, False)
-        rows.append({"op": op, "c": ra, "u": rb, "vc": _snap(a), "vu": _snap(b)})
+        rows.append({"op": op, "c": ra, "u": rb, "vc": _snap(a), "vu": _snap(b), "note": note})
     return {"obs": [], "rows": rows, "hits": 0, "special": 0, "stats": {"wf_cases": 1}}
 
 
@@ -983,6 +990,8 @@ def _trigger(case, impl, k):
         return "other"
     for j in range(k - 1, -1, -1):
         if rows[j]["op"][0] != "run" and rows[j]["c"] == "unit":
+            if rows[j]["op"][0] in ("remove", "rewire") and any(r.get("note") for r in rows[:j]):
+                return "after-assignment-to-connected-input-then-disconnect"
             return "after-" + rows[j]["op"][0]
     return "other"
 
